@@ -1,6 +1,6 @@
 (* C11: finite checks over the regenerated tables, by vm_compute, lifted to
    quantified statements with forallb_forall. *)
-From KS Require Import lib.Base gen.ApiTables model.ApiVersions.
+From KS Require Import lib.Base lib.Wire gen.ApiTables model.ApiVersions.
 Open Scope Z_scope.
 
 Lemma adv_all : forallb adv_ok (advertised_pairs broker_advertised) = true.
@@ -80,4 +80,28 @@ Proof.
   - unfold mem2 in H1. apply existsb_exists in H1 as ([k' v'] & Hi & He). cbn [fst snd] in He.
     apply andb_true_iff in He as [E1 E2]. apply Z.eqb_eq in E1, E2. subst. exact Hi.
   - apply orb_true_iff in H2 as [E|E]; [left; apply Z.eqb_eq; exact E|right; exact E].
+Qed.
+
+(* the int16 length prefix of a non-flexible string reads back as the length exactly when
+   the length is below 2^15; from 2^15 on it reads back negative and the rest of the reply is
+   mis-framed *)
+Theorem string_len_prefix n r : 0 <= n < 65536 ->
+  (n < 32768 -> get_i16 (put_i16 n ++ r) = Some (n, r)) /\
+  (32768 <= n -> get_i16 (put_i16 n ++ r) = Some (n - 65536, r) /\ n - 65536 < 0).
+Proof.
+  intros H. split.
+  - intros L. apply get_put_i16. lia.
+  - intros G. unfold get_i16, put_i16. rewrite wrap_u_id by (change (2 ^ 16) with 65536; lia).
+    rewrite get_put_u16 by lia. split; [|lia]. f_equal. f_equal.
+    unfold wrap_s. change (2 ^ (16 - 1)) with 32768. change (2 ^ 16) with 65536.
+    symmetry. assert ((n + 32768) mod 65536 = n + 32768 - 65536) as E by (symmetry; apply (Zmod_unique _ _ 1); lia).
+    rewrite E. lia.
+Qed.
+
+Theorem resp_strings_fit_spec flexible maxlen : 0 <= maxlen < 65536 ->
+  resp_strings_fit flexible maxlen = true ->
+  flexible = true \/ forall n r, 0 <= n <= maxlen -> get_i16 (put_i16 n ++ r) = Some (n, r).
+Proof.
+  intros H F. unfold resp_strings_fit in F. apply orb_true_iff in F as [F|F]; [left; exact F|right].
+  intros n r Hn. apply get_put_i16. apply Z.ltb_lt in F. lia.
 Qed.
